@@ -214,6 +214,7 @@ class Rec:
             ev["exc"] = exc
             ev["cls"] = self.cls
             ev.setdefault("p", [])
+            ev.setdefault("ctx", "si")
             ev["R"] = []
             ev["rb"] = [1, 1]
             if not exc:
@@ -442,6 +443,7 @@ def gen_query(job, out, rng):
         ev["cls"] = cls
         ev["exc"] = ""
         ev["how"] = "meth"
+        ev["ctx"] = "si"
         out.write(ev, nontrivial_key=["q", ev["A"]], outcome="q" if not ev["qexc"] else "qexc",
                   sample={"k": "q", "A": ev["A"], "card": ev["card"], "mm": ev["mm"]})
     return None
@@ -743,13 +745,357 @@ def gen_vs(job, out, rng):
     return stats
 
 
-GENS = {"pairs": gen_pairs, "unary": gen_unary, "concatx": gen_concat_x, "query": gen_query, "triple": gen_triple}
+
+# ----------------------------------------------------------------------------------------------
+# C24 / C25: expression terms over variables that carry intervals
+# ----------------------------------------------------------------------------------------------
+
+T_BIN = ["__add__", "__sub__", "__mul__", "__floordiv__", "__mod__", "__and__", "__or__", "__xor__", "__lshift__",
+         "__rshift__", "LShR"]
+T_CMP = ["__eq__", "__ne__", "ULT", "ULE", "UGT", "UGE", "SLT", "SLE", "SGT", "SGE"]
+T_UN = ["__neg__", "__invert__"]
+# operator families whose interval transfer functions are sound on the pinned tree for every well-formed operand of
+# width <= 4 (established by the exhaustive C21 tiers); the seeded random tiers draw only from these
+SOUND_BIN = ["__add__", "__sub__"]
+SOUND_CMP = ["ULT", "ULE", "UGT", "UGE"]
+SOUND_UN = ["__invert__"]
+
+
+def top(w):
+    return [w, 1, 0, (1 << w) - 1, 0, []]
+
+
+def var_ast(name, w, t):
+    import claripy
+    v = claripy.BVS(name, w, explicit_name=True)
+    if t is None or (t[1] == 1 and t[2] == 0 and t[3] == (1 << w) - 1 and not t[4]):
+        return v
+    return v.annotate(claripy.annotation.StridedIntervalAnnotation(t[1], t[2], t[3]))
+
+
+def build_ann(t, env):
+    op = t[0]
+    if op == "BVS":
+        return env[t[1]]
+    if op in ("BVV", "BoolV", "BoolS"):
+        return TM.build(t)
+    a = [build_ann(x, env) for x in t[3]]
+    return TM.build_std(op, t, a)
+
+
+def conv_event(out, t, vars_, ctx, stats):
+    """vars_: [[name, w, tuple-or-None]]"""
+    import claripy
+    env = {n: var_ast(n, w, si) for n, w, si in vars_}
+    exc, ast = guarded(lambda: build_ann(t, env))
+    if exc:
+        stats["build-failed"] = stats.get("build-failed", 0) + 1
+        return
+    used = TM.free_vars(t)
+    vv = [[n, w, [strip(si) if si else top(w)]] for n, w, si in vars_ if n in used]
+    for n, w in used.items():
+        if w == 0:
+            vv.append([n, 0, []])
+    exc, r = guarded(lambda: claripy.backends.vsa.convert(ast))
+    if exc in ("BackendError", "BackendUnsupportedError"):
+        stats["unsupported"] = stats.get("unsupported", 0) + 1
+        return
+    ev = {"k": "conv", "op": t[0], "t": t, "vars": vv, "rt": "si", "R": [], "rb": [1, 1], "exc": exc, "how": "convert",
+          "cls": 0, "ctx": ctx}
+    if not exc:
+        kind, payload = value(r)
+        if kind == "si":
+            ev["R"] = payload
+            if TM.is_bool(t):
+                ev["exc"] = "ResultType:si-for-bool"
+        elif kind == "bool":
+            ev["rt"] = "bool"
+            ev["rb"] = payload
+            if not TM.is_bool(t):
+                ev["exc"] = "ResultType:bool-for-bv"
+        else:
+            ev["exc"] = "ResultType:" + str(payload if kind == "other" else kind)
+    rewritten = (not exc) and TM.ser(ast) != t
+    out.write(ev, nontrivial_key=[t, vv], outcome=(ev["exc"] or "ok"),
+              sample={"t": t, "vars": vv, "rt": ev["rt"], "R": ev["R"], "rb": ev["rb"]})
+    if rewritten:
+        stats["rewritten"] = stats.get("rewritten", 0) + 1
+
+
+def d1_terms(W, maxw=6):
+    """depth-1 operator shapes over x, y (width W) and a few depth-2 shapes that exercise If/excavation"""
+    x, y = TM.BVS("x", W), TM.BVS("y", W)
+    for op in T_BIN:
+        yield TM.T(op, x, y)
+    for op in T_CMP:
+        yield TM.T(op, x, y)
+    for op in T_UN:
+        yield TM.T(op, x)
+    for n in range(1, maxw - W + 1):
+        yield TM.T("ZeroExt", x, ints=(n,))
+        yield TM.T("SignExt", x, ints=(n,))
+    for hi in range(W):
+        for lo in range(hi + 1):
+            if not (hi == W - 1 and lo == 0):
+                yield TM.T("Extract", x, ints=(hi, lo))
+    yield TM.T("Concat", x, y)
+    for c in ("ULT", "SLE", "__eq__", "__ne__"):
+        cond = TM.T(c, x, y)
+        yield TM.T("If", cond, x, y)
+        yield TM.T("If", cond, TM.BVV(1, W), TM.BVV(0, W))
+        yield TM.T("__add__", TM.T("If", cond, x, TM.BVV(1, W)), y)          # excavated by convert
+        yield TM.T("If", cond, TM.T("ULE", x, TM.BVV(1, W)), TM.T("UGT", y, TM.BVV(1, W)))   # Boolean If
+        yield TM.T("Not", cond)
+        yield TM.T("And", cond, TM.T("ULE", x, TM.BVV((1 << W) - 2, W)))
+        yield TM.T("Or", cond, TM.T("UGE", y, TM.BVV(1, W)))
+        yield TM.T("If", TM.T("Not", cond), TM.T("If", TM.T("UGT", x, y), x, y), TM.BVV(0, W))   # nested If
+
+
+class TermGen:
+    def __init__(self, rng, Wb, names, sound_only):
+        self.rng, self.Wb, self.names = rng, Wb, names
+        self.bin = SOUND_BIN if sound_only else T_BIN
+        self.cmp = SOUND_CMP if sound_only else T_CMP
+        self.un = SOUND_UN if sound_only else T_UN
+        self.sound = sound_only
+
+    def leaf(self, w):
+        r = self.rng
+        if w == self.Wb and r.random() < 0.7:
+            return TM.BVS(r.choice(self.names), w)
+        if w > self.Wb and not self.sound and r.random() < 0.5:
+            return TM.T(r.choice(["ZeroExt", "SignExt"]), TM.BVS(r.choice(self.names), self.Wb), ints=(w - self.Wb,))
+        if w > self.Wb and self.sound and r.random() < 0.5:
+            return TM.T("ZeroExt", TM.BVS(r.choice(self.names), self.Wb), ints=(w - self.Wb,))
+        return TM.BVV(r.getrandbits(w), w)
+
+    def bv(self, w, d):
+        r = self.rng
+        if d <= 0:
+            return self.leaf(w)
+        c = r.random()
+        if c < 0.45:
+            return TM.T(r.choice(self.bin), self.bv(w, d - 1), self.bv(w, d - 1))
+        if c < 0.55:
+            return TM.T(r.choice(self.un), self.bv(w, d - 1))
+        if c < 0.75:
+            return TM.T("If", self.boolean(d - 1), self.bv(w, d - 1), self.bv(w, d - 1))
+        if c < 0.85 and w < 2 * self.Wb and not self.sound:
+            w2 = r.choice([x for x in (self.Wb, 2 * self.Wb) if x > w] or [w])
+            if w2 > w:
+                lo = r.randint(0, w2 - w)
+                return TM.T("Extract", self.bv(w2, d - 1), ints=(lo + w - 1, lo))
+        if c < 0.95 and w > self.Wb and not self.sound:
+            return TM.T("Concat", self.bv(w - self.Wb, d - 1), self.bv(self.Wb, d - 1))
+        return self.leaf(w)
+
+    def boolean(self, d):
+        r = self.rng
+        c = r.random()
+        if d <= 0 or c < 0.6:
+            w = self.Wb
+            return TM.T(r.choice(self.cmp), self.bv(w, max(d - 1, 0)), self.bv(w, max(d - 1, 0)))
+        if c < 0.75:
+            return TM.T("Not", self.boolean(d - 1))
+        if c < 0.9:
+            return TM.T(r.choice(["And", "Or"]), self.boolean(d - 1), self.boolean(d - 1))
+        return TM.T("If", self.boolean(d - 1), self.boolean(d - 1), self.boolean(d - 1))
+
+
+def gen_conv(job, out, rng):
+    stats = {}
+    mode = job["mode"]
+    part, nparts = job.get("part", 0), job.get("nparts", 1)
+    if mode == "d1":
+        W = job["W"]
+        pop = wf_population(W)
+        mod = job.get("slice_mod", 1)
+        terms = list(d1_terms(W, job.get("maxw", 6)))
+        k = 0
+        for ia, sx in enumerate(pop):
+            if ia % nparts != part:
+                continue
+            for ib, sy in enumerate(pop):
+                k += 1
+                if (ia * len(pop) + ib) % mod != 0:
+                    continue
+                for t in terms:
+                    if "y" not in TM.free_vars(t) and ib != 0:
+                        continue        # single-variable shapes once per x
+                    conv_event(out, t, [["x", W, sx], ["y", W, sy]], "d1", stats)
+    else:
+        sound = job.get("ops") == "sound"
+        ctx = "rand-sound" if sound else "cat"
+        for i in range(job["n"]):
+            Wb = rng.choice(job.get("widths", [2, 3, 4]))
+            nv = rng.choice([1, 2, 2, 3]) if Wb <= 3 else rng.choice([1, 2])
+            names = ["x", "y", "z"][:nv]
+            pop = _pop_cache(Wb)
+            vars_ = [[n, Wb, rng.choice(pop) if rng.random() < 0.85 else None] for n in names]
+            g = TermGen(rng, Wb, names, sound)
+            d = rng.choice(job.get("depths", [2, 2, 3]))
+            want_bool = rng.random() < 0.35
+            w = Wb if rng.random() < 0.8 or sound else rng.choice([Wb, 2 * Wb]) if 2 * Wb <= 8 else Wb
+            t = g.boolean(d) if want_bool else g.bv(w, d)
+            if i % nparts != part:
+                continue
+            conv_event(out, t, vars_, ctx, stats)
+    return stats
+
+
+_POP = {}
+
+
+def _pop_cache(W):
+    if W not in _POP:
+        _POP[W] = wf_population(W)
+    return _POP[W]
+
+
+# ---- C25 ----
+
+def c2si_event(out, c, vars_, shape, stats):
+    import claripy
+    env = {n: var_ast(n, w, si) for n, w, si in vars_}
+    exc, ast = guarded(lambda: build_ann(c, env))
+    if exc:
+        stats["build-failed"] = stats.get("build-failed", 0) + 1
+        return
+    if ast.op == "BoolV":
+        stats["folded"] = stats.get("folded", 0) + 1      # claripy folded the constraint to a constant: still test it
+    used = TM.free_vars(c)
+    vv = [[n, w, [strip(si) if si else top(w)]] for n, w, si in vars_ if n in used]
+    ev = {"k": "c2si", "op": shape, "c": c, "vars": vv, "sat": True, "reps": [], "exc": "", "how": "constraint_to_si",
+          "cls": 0, "ctx": "c2si"}
+    exc, r = guarded(lambda: claripy.constraint_to_si(ast))
+    if exc:
+        ev["exc"] = exc
+    else:
+        sat, reps = r
+        ev["sat"] = bool(sat)
+        declared = {n for n, _, _ in vv}
+        for expr, bound in reps:
+            te = TM.ser(expr)
+            if not set(TM.free_vars(te)) <= declared:
+                ev["exc"] = "foreign-variable"
+                break
+            exc2, b = guarded(lambda: claripy.backends.vsa.convert(bound))
+            if exc2:
+                ev["exc"] = "bound-convert:" + exc2
+                break
+            kind, payload = value(b)
+            if kind != "si":
+                ev["exc"] = "bound-type:" + kind
+                break
+            ev["reps"].append([te, payload])
+        if ev["exc"]:
+            ev["reps"] = []
+    nt = bool(ev["reps"]) or not ev["sat"]
+    out.write(ev, nontrivial_key=[c, vv] if nt else None, outcome=(ev["exc"] or ("sat" if ev["sat"] else "unsat")),
+              sample={"c": c, "vars": vv, "sat": ev["sat"], "reps": ev["reps"]})
+
+
+def c2si_shapes(W):
+    """(shape name, lhs term, lhs width) over x (and y) of width W, constants enumerated exhaustively"""
+    x, y = TM.BVS("x", W), TM.BVS("y", W)
+    yield "var", x, W
+    for k in range(1 << W):
+        kk = TM.BVV(k, W)
+        yield "add-k", TM.T("__add__", x, kk), W
+        yield "sub-k", TM.T("__sub__", x, kk), W
+        yield "k-sub", TM.T("__sub__", kk, x), W
+        yield "and-k", TM.T("__and__", x, kk), W
+    for k in range(W + 1):
+        yield "shl-k", TM.T("__lshift__", x, TM.BVV(k, W)), W
+    yield "add-xy", TM.T("__add__", x, y), W
+    yield "sub-xy", TM.T("__sub__", x, y), W
+    for hi in range(W):
+        for lo in range(hi + 1):
+            if not (hi == W - 1 and lo == 0):
+                yield "extract", TM.T("Extract", x, ints=(hi, lo)), hi - lo + 1
+    for n in (1, 2):
+        yield "zext", TM.T("ZeroExt", x, ints=(n,)), W + n
+        yield "sext", TM.T("SignExt", x, ints=(n,)), W + n
+        for k in range(1 << n):
+            yield "concat-kx", TM.T("Concat", TM.BVV(k, n), x), W + n
+            yield "concat-xk", TM.T("Concat", x, TM.BVV(k, n)), W + n
+    for k in (0, 1, (1 << W) - 1):
+        for c in ("ULT", "SGE", "__eq__"):
+            yield "if", TM.T("If", TM.T(c, y, TM.BVV(1, W)), x, TM.BVV(k, W)), W
+
+
+def gen_c2si(job, out, rng):
+    stats = {}
+    W = job["W"]
+    part, nparts = job.get("part", 0), job.get("nparts", 1)
+    mod = job.get("slice_mod", 1)
+    mode = job.get("mode", "shapes")
+    pop = _pop_cache(W)
+    i = 0
+    if mode == "shapes":
+        for shape, lhs, lw in c2si_shapes(W):
+            for cmp_ in T_CMP:
+                for c in range(1 << lw):
+                    i += 1
+                    if i % nparts != part or (i // nparts) % mod != 0:
+                        continue
+                    t = TM.T(cmp_, lhs, TM.BVV(c, lw))
+                    c2si_event(out, t, [["x", W, None], ["y", W, None]], shape, stats)
+    elif mode == "annot":
+        # variables that carry intervals, compared with a constant or with another interval variable
+        for ia, sx in enumerate(pop):
+            for cmp_ in T_CMP:
+                for c in range(1 << W):
+                    i += 1
+                    if i % nparts != part or (i // nparts) % mod != 0:
+                        continue
+                    c2si_event(out, TM.T(cmp_, TM.BVS("x", W), TM.BVV(c, W)), [["x", W, sx]], "annot-k", stats)
+                    c2si_event(out, TM.T(cmp_, TM.T("__add__", TM.BVS("x", W), TM.BVV(1, W)), TM.BVV(c, W)),
+                               [["x", W, sx]], "annot-add-k", stats)
+                for ib, sy in enumerate(pop):
+                    i += 1
+                    if i % nparts != part or (i // nparts) % (mod * 8) != 0:
+                        continue
+                    c2si_event(out, TM.T(cmp_, TM.BVS("x", W), TM.BVS("y", W)), [["x", W, sx], ["y", W, sy]],
+                               "annot-var", stats)
+    elif mode == "bool":
+        # And / Or / Not of two simple constraints (deterministic catalogue from a fixed seed)
+        r2 = random.Random(job.get("catseed", 4242))
+        simple = []
+        for shape, lhs, lw in c2si_shapes(W):
+            if shape in ("var", "add-k", "sub-k", "extract", "zext", "and-k"):
+                simple.append((lhs, lw))
+        for _ in range(job["n"]):
+            i += 1
+            parts = []
+            for _k in range(2):
+                lhs, lw = r2.choice(simple)
+                parts.append(TM.T(r2.choice(T_CMP), lhs, TM.BVV(r2.getrandbits(lw), lw)))
+            form = r2.choice(["And", "Or", "NotAnd", "NotOr", "Not"])
+            if form == "And":
+                t = TM.T("And", *parts)
+            elif form == "Or":
+                t = TM.T("Or", *parts)
+            elif form == "NotAnd":
+                t = TM.T("Not", TM.T("And", *parts))
+            elif form == "NotOr":
+                t = TM.T("Not", TM.T("Or", *parts))
+            else:
+                t = TM.T("Not", parts[0])
+            if i % nparts != part:
+                continue
+            c2si_event(out, t, [["x", W, None], ["y", W, None]], "bool-" + form, stats)
+    return stats
+
+
+GENS = {"pairs": gen_pairs, "unary": gen_unary, "concatx": gen_concat_x, "query": gen_query, "triple": gen_triple,
+        "dsis": gen_dsis, "vs": gen_vs, "conv": gen_conv, "c2si": gen_c2si}
 
 
 def main():
     job = json.load(open(sys.argv[1]))
     logging.disable(logging.CRITICAL)
-    sys.setrecursionlimit(job.get("reclimit", 400))     # runaway recursion in a transfer function fails fast
+    sys.setrecursionlimit(job.get("reclimit", 150))     # runaway recursion in a transfer function fails fast
     signal.signal(signal.SIGALRM, _alarm)
     rng = random.Random(job.get("seed", 0))
     out = ShardWriter(sys.argv[2], job.get("shard", 20000))
